@@ -1,16 +1,16 @@
 #!/usr/bin/env python3
 """prints the markdown table of stored seeded changes (usage: seed_table.py [round2])"""
 import json, os, sys
-only2 = len(sys.argv) > 1 and sys.argv[1] == 'round2'
+rnd = sys.argv[1] if len(sys.argv) > 1 else 'round1'
 rows = []
 for d in sorted(os.listdir('/verif/seeded')):
     m = json.load(open(os.path.join('/verif/seeded', d, 'meta.json')))
     note = m.get('checks', {}).get('note', '')
-    is2 = note.startswith('round 2')
-    if only2 != is2:
+    this = 'round2' if note.startswith('round 2') else ('round3' if note.startswith('round 3') else 'round1')
+    if this != rnd:
         continue
     cut = lambda s, n: (s[:n].rsplit(' ', 1)[0] + ' …') if len(s) > n else s
-    rows.append('| %s | %s | %s | %s | %s | %s |' % (d, m['property'], cut(m['summary'].replace('|', '/').replace('\n', ' '), 230), cut(m['needs'].replace('|', '/').replace('\n', ' '), 200), m['checks']['caught_by'].replace('|', '/'), note.replace('round 2; ', '').replace('|', '/')))
+    rows.append('| %s | %s | %s | %s | %s | %s |' % (d, m['property'], cut(m['summary'].replace('|', '/').replace('\n', ' '), 230), cut(m['needs'].replace('|', '/').replace('\n', ' '), 200), m['checks']['caught_by'].replace('|', '/'), note.replace('round 2; ', '').replace('round 3; ', '').replace('|', '/')))
 print('| seed | written against | change | needs | caught by | first contact |')
 print('|---|---|---|---|---|---|')
 print('\n'.join(rows))
